@@ -88,7 +88,7 @@ type Op struct {
 	Ms    int               `json:"ms,omitempty"`
 	Cache string            `json:"cache,omitempty"` // purge: "" | c1 | c2 | nope
 	Call  string            `json:"call,omitempty"`  // fault: get | set | delete
-	Fault string            `json:"fault,omitempty"` // notfound | error | trunc:<n> | garbage:<seed> | status:<n>
+	Fault string            `json:"fault,omitempty"` // notfound | error | trunc:<n> | garbage:<seed> | status:<n> | badfilter:<n>
 }
 
 type Scenario struct {
@@ -257,6 +257,8 @@ type clientRec struct {
 	parkedAt  string
 	parkCh    chan struct{}
 	parkBits  int
+	cancel    context.CancelFunc
+	Cancelled bool // the client went away (its request context was cancelled) while it had no upstream exchange of its own
 }
 
 type world struct {
@@ -366,13 +368,29 @@ func (w *world) roundTrip(req *http.Request) (*http.Response, error) {
 	}
 	w.mu.Unlock()
 	var out *Outcome
+	ctxDone := req.Context().Done()
+	w.mu.Lock()
+	gone := cid >= 0 && cid < len(w.clients) && w.clients[cid].Cancelled
+	w.mu.Unlock()
+	if gone {
+		// the client of this request went away earlier (op cancel). What such a request still does
+		// is its own business, but it must not disturb anybody else: its exchange is answered like
+		// any other (only a proxy deadline still ends it), so the model needs no special case.
+		ctxDone = nil
+		if u.Deadline > 0 {
+			dl := make(chan struct{})
+			tm := time.AfterFunc(time.Duration(u.Deadline-u.ArriveMs)*time.Millisecond, func() { close(dl) })
+			defer tm.Stop()
+			ctxDone = dl
+		}
+	}
 	select {
 	case out = <-u.ch:
-	case <-req.Context().Done():
+	case <-ctxDone:
 		w.mu.Lock()
 		u.Ended, u.EndMs, u.EndKind = true, w.nowMs(), "timeout"
 		w.mu.Unlock()
-		return nil, req.Context().Err()
+		return nil, context.DeadlineExceeded
 	}
 	w.mu.Lock()
 	u.Ended, u.EndMs, u.EndKind, u.Out = true, w.nowMs(), out.Kind, out
@@ -542,7 +560,12 @@ func (w *world) startClient(op Op) *clientRec {
 			req.Header.Set(hk, hv)
 		}
 		srv := &http.Server{}
-		req = req.WithContext(context.WithValue(req.Context(), http.ServerContextKey, srv))
+		ctx, cancel := context.WithCancel(context.WithValue(req.Context(), http.ServerContextKey, srv))
+		defer cancel()
+		w.mu.Lock()
+		c.cancel = cancel
+		w.mu.Unlock()
+		req = req.WithContext(ctx)
 		rec := httptest.NewRecorder()
 		defer func() {
 			if r := recover(); r != nil {
@@ -654,7 +677,7 @@ func (m *memStore) Get(key []byte) ([]byte, error) {
 		return nil, store.ErrNotFound
 	case f == "error":
 		return nil, errInjected
-	case strings.HasPrefix(f, "trunc:"), strings.HasPrefix(f, "status:"), strings.HasPrefix(f, "garbage:"):
+	case strings.HasPrefix(f, "trunc:"), strings.HasPrefix(f, "status:"), strings.HasPrefix(f, "garbage:"), strings.HasPrefix(f, "badfilter:"):
 		return corruptRecord(f, rec.data, ok), nil
 	}
 	if !ok {
@@ -1068,6 +1091,34 @@ func (w *world) execOp1(i int, op Op, m *model, tr *trace) {
 		for _, o := range group {
 			m.step(i, "release:"+point, o, snap)
 		}
+	case "cancel":
+		// a client that is waiting (no upstream exchange of its own) goes away
+		w.mu.Lock()
+		pendOf := map[int]bool{}
+		for _, u := range w.ups {
+			if !u.Ended {
+				pendOf[u.Client] = true
+			}
+		}
+		var cands []*clientRec
+		for _, c := range w.clients {
+			if !c.Done && !c.Cancelled && !pendOf[c.ID] && c.cancel != nil {
+				cands = append(cands, c)
+			}
+		}
+		if len(cands) == 0 {
+			w.mu.Unlock()
+			tr.Skipped++
+			return
+		}
+		c := cands[((op.Pick%len(cands))+len(cands))%len(cands)]
+		c.Cancelled = true
+		cancel := c.cancel
+		w.mu.Unlock()
+		cancel()
+		synctest.Wait()
+		m.step(i, "advance", nil, w.snapshot(i))
+		w.handover(i, m)
 	case "purge":
 		name := op.Cache
 		switch name {
